@@ -368,8 +368,11 @@ def files_cases(tier):
         doubles = [list(p) for p in itertools.combinations(main, 2)]
     else:
         doubles = [list(p) for p in itertools.combinations(combos, 2)]
+    # two formats of one bucket form an ordered list in the configuration: both orders
+    doubles += [[b2, a2] for a2, b2 in [tuple(d) for d in doubles] if a2[0] == b2[0]]
+    triples = [[["image", f] for f in perm] for perm in itertools.permutations(["jpg", "fits", "npy"])]
     cases = []
-    for sl in singles + doubles:
+    for sl in singles + doubles + triples:
         for mode in ("exposure1", "exposure2", "obs_seq", "obs_dask"):
             if len(sl) == 2 and mode in ("exposure2",) and tier == "quick":
                 continue
